@@ -53,7 +53,13 @@ RULE = ("cells = full product of geometry configurations inside the bound (StepE
         "every string / enumerated option in every accepted spelling and every integer-like or numeric constructor "
         "argument in every accepted representation (full product of the option facets of a class inside a smaller "
         "size bound) and run the same relations against the reference of the canonical value; violations of such a "
-        "cell are attributed to the minimal failing subset of non-canonical facets; a cell is non-trivial when the "
+        "cell are attributed to the minimal failing subset of non-canonical facets; GRID-TRANSFORM facet: every "
+        "grid-carrying geometry (StepExpansion, KLExpansion, Continuous1D, Continuous2D) is also built on the dyadic "
+        "grid s*(arange(N)/64)+t for the full product of power-of-two scalings s and translations t (exact in "
+        "floating point) and must act exactly like the untranslated geometry: StepExpansion node by node against the "
+        "documented partition computed in exact rational arithmetic (no upper-step reading is possible: the float "
+        "grid IS the ideal grid) and fun2par (mean/max/min) against the same node sets, the others against the "
+        "grid-independent reference maps (signatures carry ',grid=s*dyadic+t'); a cell is non-trivial when the "
         "geometry was constructed and at least one map was evaluated on the whole basis")
 BOUND = {
     "quick": "StepExpansion N=2..12, n_steps=1..N, offsets {0,0.1,1,-0.3,1e3}, lengths {1,0.7,3,0.1,pi}, builders "
@@ -74,10 +80,14 @@ BOUND = {
              "np.int64}; Continuous2D {1..4}^2 x grid {np.int64 pair, one-element tuples, list of two, int-dtype "
              "arrays, int+array mixed, float pair}; Discrete 1..6 as {np.int64, float, list of np.str_}; Continuous1D / "
              "default 1D 1..6 as {np.int64, (np.int64,), int-dtype array, float}; default 2D {1..3}^2 x {np.int64, "
-             "float} x visual_only; Mapped over images of order c / f",
+             "float} x visual_only; Mapped over images of order c / f.  GRID-TRANSFORM facet: s in {1, 2^-6, 2^10} x t in "
+             "{0, 2^20, -2^20} on the base grid arange(N)/64: StepExpansion N=2..12 x n_steps=1..N x all 9 (s,t) x 3 "
+             "projections; the 8 non-identity (s,t) x {KLExpansion N=1..6 x num_modes {None,1..N+1} (decay 2.5, "
+             "normaliser 12); Continuous2D {1..4}^2; Continuous1D 1..6}",
     "thorough": "same with StepExpansion N=2..24, KLExpansion N=1..16, Continuous2D/Image2D {1..5}^2, 3 dyadic "
                 "vectors per cell (representations, words and batch sizes as in quick); OPTION facet with StepExpansion "
-                "N=2..10, KLExpansion N=1..8, images / 2-D grids {1..5}^2",
+                "N=2..10, KLExpansion N=1..8, images / 2-D grids {1..5}^2; GRID-TRANSFORM facet with StepExpansion "
+                "N=2..24, KLExpansion N=1..16, Continuous2D {1..5}^2",
 }
 ASSUMPTIONS = [
     "a grid node that coincides (in rational arithmetic) with an interior step boundary is accepted in the lower "
@@ -102,6 +112,11 @@ ASSUMPTIONS = [
     "float-valued integers and a list in place of the documented shape tuple are OPTIONAL representations: the "
     "library may refuse them anywhere (any raise of library code = refusal; a geometry reporting non-integer "
     "dimensions is not explored further), but every value it does return must equal the reference",
+    "grid-transform facet: the documented partition (i*L/n, (i+1)*L/n] and the KL series / reshape maps are stated "
+    "relative to the grid's own origin and length, so they are invariant under grid -> s*grid + t; for power-of-two "
+    "s, t (|t|/spacing up to 2^32, far inside the 53-bit mantissa) every node, L and every coincident boundary is "
+    "exact in floating point, hence the library must reproduce the ideal partition exactly (a self-check asserts "
+    "the exactness of the transformed grid)",
     "the function values of every geometry in the bound are arrays: fun_is_array must say so once par2fun has "
     "returned an array of the reported fun_shape (Samples.funvals relies on it)",
 ]
@@ -109,6 +124,22 @@ ASSUMPTIONS = [
 OFFSETS = [0.0, 0.1, 1.0, -0.3, 1e3]
 LENGTHS = [1.0, 0.7, 3.0, 0.1, math.pi]
 PROJS = ["mean", "max", "min"]
+GT_S = [1.0, 2.0 ** -6, 2.0 ** 10]          # power-of-two scalings of the dyadic base grid arange(N)/64
+GT_T = [0.0, 2.0 ** 20, -2.0 ** 20]        # power-of-two translations
+GT_FACET = "grid=s*dyadic+t"
+
+
+def _dy(N, gt):
+    """s*(arange(N)/64) + t, with the harness self-check that every node is exact in floating point."""
+    s, t = gt
+    g = t + s * (np.arange(N) / 64.0)
+    assert all(Fraction(float(g[i])) == Fraction(t) + Fraction(s) * Fraction(i, 64) for i in range(N)), \
+        "harness self-check: transformed dyadic grid is not exact"
+    return g
+
+
+def _gtf(cell):
+    return GT_FACET if "gt" in cell else ""
 
 
 # ----------------------------------------------------------------------------------------
@@ -127,6 +158,26 @@ def cells(tier, seed):
                 for L in LENGTHS:
                     for b in ("lin", "ar"):
                         yield {"fam": "step", "N": N, "n": n, "x0": x0, "L": L, "b": b, "cat": k, "nv": nv}
+    # ---- GRID-TRANSFORM facet: the same dyadic grid arange(N)/64 scaled and translated by powers of two (exact
+    # in floating point): the geometry must act exactly like the untranslated one (documented partition / series) ----
+    for N in range(2, nmax_step + 1):
+        for n in range(1, N + 1):
+            for gs in GT_S:
+                for gt in GT_T:
+                    yield {"fam": "step", "N": N, "n": n, "x0": gt, "L": gs * (N - 1) / 64.0, "b": "dy", "gt": [gs, gt],
+                           "cat": k, "nv": nv}
+    for gs in GT_S:
+        for gt in GT_T:
+            if (gs, gt) == (1.0, 0.0):
+                continue
+            for N in range(1, (6 if tier == "quick" else nmax_kl) + 1):
+                for m in [None] + list(range(1, N + 2)):
+                    yield {"fam": "kl", "N": N, "m": m, "decay": 2.5, "tau": 12.0, "gt": [gs, gt], "cat": k, "nv": nv}
+            for n1 in range(1, smax + 1):
+                for n2 in range(1, smax + 1):
+                    yield {"fam": "c2d", "n1": n1, "n2": n2, "grid": "dy", "gt": [gs, gt], "cat": k, "nv": nv}
+            for n in range(1, 7):
+                yield {"fam": "default", "kind": "c1d-dy", "n": n, "gt": [gs, gt], "cat": k, "nv": nv}
     for N in range(1, nmax_kl + 1):
         for m in [None] + list(range(1, N + 2)):
             for decay in (2.5, 1.5):
@@ -1146,6 +1197,8 @@ def _grid(cell):
         return N
     if cell["b"] == "lin":
         return np.linspace(x0, x0 + L, N)
+    if cell["b"] == "dy":
+        return _dy(N, cell["gt"])
     return x0 + np.arange(N) * (L / (N - 1))
 
 
@@ -1185,7 +1238,7 @@ def eval_step(cell, res):
     full = (cell["b"] == "int" or (cell["x0"], cell["L"]) == (0.1, 0.7)) and not opt
     first = True
     for proj in PROJS:
-        cx = Ctx(res, "StepExpansion", lenient=_lenient(cell))
+        cx = Ctx(res, "StepExpansion", facet=_gtf(cell), lenient=_lenient(cell))
         res.transitions += 1
         try:
             g = StepExpansion(grid, n_steps=IREP[nrep](n), fun2par_projection=_case(proj, pcase))
@@ -1337,8 +1390,11 @@ def kl_matrix(N, m, decay, tau):
 def eval_kl(cell, res):
     from cuqi.geometry import KLExpansion
     N, m, decay, tau, k, nv = cell["N"], cell["m"], cell["decay"], cell["tau"], cell["cat"], cell["nv"]
-    cx = Ctx(res, "KLExpansion", lenient=_lenient(cell))
+    cx = Ctx(res, "KLExpansion", facet=_gtf(cell), lenient=_lenient(cell))
     grid = np.linspace(0, 1, N) if N > 1 else np.array([0.5])
+    if "gt" in cell:
+        grid = _dy(N, cell["gt"])
+        res.state("kl-grid-transformed")
     # option facet: representation of the grid (the series does not depend on the node positions), of num_modes and
     # of the numeric options; decay / tau / m stay the python values used by the reference
     grep, mrep, numrep = _opt(cell, "grep"), _opt(cell, "mrep"), _opt(cell, "numrep")
@@ -1419,8 +1475,11 @@ def eval_kl(cell, res):
 def eval_c2d(cell, res):
     from cuqi.geometry import Continuous2D
     n1, n2, k, nv = cell["n1"], cell["n2"], cell["cat"], cell["nv"]
-    cx = Ctx(res, "Continuous2D", lenient=_lenient(cell))
+    cx = Ctx(res, "Continuous2D", facet=_gtf(cell), lenient=_lenient(cell))
     grid = (n1, n2) if cell["grid"] == "int" else (0.1 + 0.7 * np.arange(n1), list(-0.3 + 0.25 * np.arange(n2)))
+    if cell["grid"] == "dy":
+        grid = (_dy(n1, cell["gt"]), list(_dy(n2, cell["gt"])))
+        res.state("c2d-grid-transformed")
     g2 = _opt(cell, "g2rep")          # option facet: representation of the pair of grid sizes
     if g2 != "int":
         res.state("c2d-opt:" + g2)
@@ -1631,6 +1690,9 @@ def eval_default(cell, res):
     elif kind == "c1d-list":
         cx = Ctx(res, "Continuous1D")
         g = _construct(cx, Continuous1D, [0.5 * i - 1 for i in range(n)])
+    elif kind == "c1d-dy":
+        cx = Ctx(res, "Continuous1D", facet=GT_FACET)
+        g = _construct(cx, Continuous1D, _dy(n, cell["gt"]))
     elif kind == "samples-default":
         cx = Ctx(res, "Samples-default-geometry")
         ok, g = _call(res, lambda: cuqi.samples.Samples(_batch(n, k, 3)).geometry)
@@ -1650,6 +1712,8 @@ def eval_default(cell, res):
     cx.shape("fun_shape", g.fun_shape, (n,))
     if kind.startswith("c1d") or kind == "default1d":
         want = np.arange(n, dtype=float) if kind != "c1d-list" else np.array([0.5 * i - 1 for i in range(n)])
+        if kind == "c1d-dy":
+            want = _dy(n, cell["gt"])
         res.evaluations += 1
         if not close(np.asarray(g.grid, float), want, 1e-15):
             cx.fail("grid", "default-grid", "grid %s is not the documented default %s" % (g.grid, want))
